@@ -1031,6 +1031,29 @@ def r7_default_range(R) -> None:
                     ex = f.expand(n.id, x, depth=3)
                     if '_locate_period_in_span' in text(ex):
                         cands.append((n, ex))
+        if not cands and rng_nodes:
+            # the positions come through locals with several definitions (extra options, helpers read in place): read the
+            # range's value with every option other than start / end left at its default
+            try:
+                from fsa.gated import canon, under_defaults
+                se = f.symexec()
+                for n in rng_nodes:
+                    for x in ast.walk(n.ast):
+                        if is_call(x, 'range') and len(x.args) >= 2:
+                            v = canon(under_defaults(canon(se.value(n.ast, x)), f.fi.node, keep=('self', 'start', 'end')))
+                            for nm in ('start', 'end'):
+                                gv = text(canon(under_defaults(canon(se.value(n.ast, ast.Name(id=nm, ctx=ast.Load()))), f.fi.node, keep=('self', 'start', 'end'))))
+                                if gv != nm:
+                                    class _Back(ast.NodeTransformer):
+                                        def generic_visit(self_, node):
+                                            if isinstance(node, ast.expr) and text(node) == gv:
+                                                return ast.Name(id=nm, ctx=ast.Load())
+                                            return super().generic_visit(node)
+                                    v = _Back().visit(v)
+                            if is_call(v, 'range') and '_locate_period_in_span' in text(v):
+                                cands.append((n, v))
+            except (Unsupported, Unknown):
+                pass
         if R.require(q, len(cands), 'range(loc(start), loc(end) + 1)', fi=f.fi, pred=lambda x: is_call(x, 'range')):
             n, r = cands[0]
             ok = text(r.args[0]) == 'self._locate_period_in_span(start)' and affine(r.args[1]) == affine(expr('self._locate_period_in_span(end) + 1')) \
